@@ -7,7 +7,8 @@
                                     applySupLinks (as its effect: the block's checkpoint becomes
                                     justified through source s, see [bjust])
      protocol/casper/auth_verification.go AuthVerification (as its effect [Justify t s]),
-                                    setJustified, setFinalized, tryRollback
+                                    setJustified, setFinalized, tryRollback,
+                                    authVerificationLoop/authCachedMsg (as [LateJustify t s])
      protocol/state/checkpoint.go   NewCheckpoint, Increase (hash/height/status part)
      protocol/block.go              processBlock, saveBlock, saveSubBlock, tryReorganize,
                                     reorganizeChain, calcReorganizeChain
@@ -330,15 +331,36 @@ Definition justify (st : state) (t s : N) : state :=
     end
   end.
 
-Inductive event := Deliver (b : N) | Justify (t s : N) | Nop.
+(* authVerificationLoop / authCachedMsg: a verification message that arrived before its target
+   checkpoint was known is cached and applied later by a background goroutine, through
+   authVerification only: the checkpoint becomes justified, tryRollback is NOT called *)
+Definition late_justify (st : state) (t s : N) : state :=
+  match find_path t (tree st) with
+  | None => st
+  | Some p =>
+    match get_at p (tree st) with
+    | Some n =>
+      if is_unjustified (cst_of n)
+      then mks (store st) (orphans st) (set_justified p s (tree st)) (best st) (idx st) (hung st)
+      else st
+    | None => st
+    end
+  end.
+
+Inductive event := Deliver (b : N) | Justify (t s : N) | LateJustify (t s : N) | Nop.
 
 Definition step (s : state) (e : event) : state :=
   if hung s then s else
   match e with
   | Deliver b => process_block s b
   | Justify t src => justify s t src
+  | LateJustify t src => late_justify s t src
   | Nop => s
   end.
+
+(* histories in which every verification message found its target checkpoint in the tree *)
+Definition is_late (e : event) : bool := match e with LateJustify _ _ => true | _ => false end.
+Definition no_late (evs : list event) : bool := forallb (fun e => negb (is_late e)) evs.
 
 (* NewChain on an empty store: initChainStatus *)
 Definition init (g : N) : state :=
